@@ -27,22 +27,28 @@ NOT_DECIDED = ('the adjustment formulas of DivInt/ModInt/ModFloat themselves, th
                'the chosen operators; whether the path conditions of use_utility_code and of the emitted call coincide exactly.')
 ASSUMPTIONS = ['code.globalstate.directives is the scoped directive set during code generation (CompilerDirectivesNode swaps it around its body)']
 EXEMPT = {}
-MUTATIONS = [
-    ('Cython/Compiler/ExprNodes.py', 'ModNode.generate_evaluation_code: drop self.generate_div_warning_code(code)', 'C03-WARN'),
-    ('Cython/Compiler/ExprNodes.py', 'DivNode.generate_evaluation_code: call generate_div_warning_code before NumBinopNode.generate_evaluation_code', 'C03-WARN'),
+MUTATIONS = [   # (file, single edit, rule that reported it) -- all run on a scratch copy, every variant was reported with exit 1
+    ('Cython/Compiler/ExprNodes.py', 'ModNode.generate_evaluation_code: drop self.generate_div_warning_code(code)', 'C03-WARN missing'),
+    ('Cython/Compiler/ExprNodes.py', 'DivNode.generate_evaluation_code: generate_div_warning_code before NumBinopNode.generate_evaluation_code', 'C03-WARN early'),
     ('Cython/Compiler/ExprNodes.py', 'generate_div_warning_code: `if self.zerodivision_check:` -> `if self.zerodivision_check and self.type.signed:`', 'C03-ZGUARD'),
     ('Cython/Compiler/ExprNodes.py', 'generate_div_warning_code: zero_test on self.operand1.result()', 'C03-ZGUARD'),
     ('Cython/Compiler/ExprNodes.py', "analyse_operation: `not env.directives['cdivision']` -> `env.directives['cdivision']`", 'C03-ZDC'),
     ('Cython/Compiler/ExprNodes.py', "analyse_operation: `self.operand2.constant_result == 0` -> `!= 0`", 'C03-ZDC'),
-    ('Cython/Compiler/ExprNodes.py', "ModNode.analyse_operation: self.cdivision = env.directives['cdivision'] or not self.type.signed -> `or self.type.signed`", 'C03-CDIV'),
-    ('Cython/Compiler/ExprNodes.py', "DivNode.generate_evaluation_code: code.globalstate.directives['cdivision'] -> Options.get_directive_defaults()['cdivision']", 'C03-SCOPED (+CDIV)'),
-    ('Cython/Compiler/ExprNodes.py', 'DivNode.calculate_result_code: __Pyx_div_...({op1}, {op2}, ...) loses its third argument', 'C03-HELPER'),
-    ('Cython/Compiler/ExprNodes.py', 'ModNode.calculate_result_code: `if self.cdivision:` -> `if not self.cdivision:`', 'C03-SEL'),
-    ('Cython/Utility/CMath.c', 'ModInt: __Pyx_mod_%(type_name)s -> __Pyx_mod_%(type)s', 'C03-HELPER'),
-    ('Cython/Utility/Optimize.c', 'PyLongBinop: x += ((x != 0) & ((x ^ b) < 0)) * b -> ... * a', 'C03-SIB'),
+    ('Cython/Compiler/ExprNodes.py', "analyse_operation: env.directives['cdivision'] -> Options.get_directive_defaults()['cdivision']", 'C03-ZDC + C03-SCOPED'),
+    ('Cython/Compiler/ExprNodes.py', "ModNode.analyse_operation: `or not self.type.signed` -> `or self.type.signed`", 'C03-CDIV'),
+    ('Cython/Compiler/ExprNodes.py', "DivNode.generate_evaluation_code: code.globalstate.directives['cdivision'] -> Options.get_directive_defaults()[...] / key 'cdivison'", 'C03-SCOPED'),
+    ('Cython/Compiler/ExprNodes.py', 'DivNode.calculate_result_code: __Pyx_div_ call loses its third argument', 'C03-HELPER arity'),
+    ('Cython/Compiler/ExprNodes.py', 'ModNode.calculate_result_code: name from self.operand2.type.specialization_name()', 'C03-HELPER type'),
+    ('Cython/Compiler/ExprNodes.py', 'ModNode.generate_evaluation_code: load_cached("ModInt") -> "DivInt"; DivNode: DivInt only loaded `and self.type.signed`', 'C03-HELPER unloaded-when'),
+    ('Cython/Compiler/ExprNodes.py', 'ModNode.calculate_result_code: `if self.cdivision:` -> `if not self.cdivision:`; DivNode: `or self.cdivision` -> `or not self.cdivision`', 'C03-SEL'),
+    ('Cython/Utility/CMath.c', 'ModInt: __Pyx_mod_%(type_name)s -> __Pyx_mod_%(type)s', 'C03-HELPER key'),
+    ('Cython/Utility/CMath.c', 'ModFloat: %(math_h_modifier)s -> %(math_modifier)s', 'C03-HELPER subst'),
+    ('Cython/Utility/CMath.c', 'ModInt: return r + adapt_python * b -> * a', 'C03-SIB'),
+    ('Cython/Utility/Optimize.c', 'PyLongBinop: x += ((x != 0) & ((x ^ b) < 0)) * b -> * a', 'C03-SIB'),
     ('Cython/Compiler/ParseTreeTransforms.py', "cmod(): drop `node.cdivision = True`", 'C03-PIN'),
-    ('behaviour-preserving', 'reorder DivNode methods; rename local zero_test; `if not self.type.is_pyobject: if self.zerodivision_check:` merged into one `and` test; '
-                             'zerodivision_check formula rewritten with De Morgan', 'silent'),
+    ('Cython/Compiler/Optimize.py', "_build_range_step_calculation: revert fix fee9625a1 (drop cdivision=False)", 'C03-PIN'),
+    ('behaviour-preserving (all silent)', '`if not is_pyobject:` nesting turned into an early return; local zero_test renamed; zerodivision_check formula rewritten with De Morgan; '
+                                          'ModNode.calculate_result_code branches reordered (`if not self.cdivision` first, %-format instead of f-string); an unrelated method added', 'silent'),
 ]
 
 REL = 'Cython/Compiler/ExprNodes.py'
